@@ -211,7 +211,10 @@ pub fn apply(st: &mut MetaStore, toks: &[&str]) -> (String, String) {
             let n = u(toks[1]);
             let mut cfg = ClusterConfig::default();
             cfg.migration_config.scan_count = u(toks[3]);
-            cfg.migration_config.max_blocking_time = MAX_BLOCKING_MS;
+            cfg.migration_config.max_blocking_time = std::env::var("UM_ROUTE_MAX_BLOCKING_MS")
+                .ok()
+                .and_then(|v| v.parse().ok())
+                .unwrap_or(MAX_BLOCKING_MS);
             let before = chunks_of(st, n);
             let r = st.add_cluster(cname(n), u(toks[2]) as usize, cfg);
             let pairs = if r.is_ok() { pairs_between(&before, &chunks_of(st, n)) } else { "-".to_string() };
